@@ -344,6 +344,33 @@ def check_resample(ctx: core.Ctx, traj, case):
                             f'{f} at t = {tq[q]!r} between points {i} ({t[i]!r}: {a[i]!r}) and {i + 1} '
                             f'({t[i + 1]!r}: {a[i + 1]!r}): got {r[q]!r}, linear interpolation {want!r}'):
                     return False
+    # the same at whole-second time points handed over in an integer array (a one-minute grid built with np.arange
+    # is the natural way to ask for a regular resampling)
+    ipicks = []
+    for i, fr in picks:
+        q = int(round(t[i] + fr * (t[i + 1] - t[i])))
+        if t[i] < q < t[i + 1]:
+            ipicks.append((i, q))
+    if ipicks:
+        ctx.label('resample:integer_times')
+        tqi = np.array([q for _, q in ipicks], dtype=np.int64 if len(ipicks) % 2 else np.int32)
+        try:
+            midi = traj.interpolate_time(tqi)
+        except core.PASS_THROUGH:
+            raise
+        except Exception as e:  # noqa: BLE001
+            return bool(ctx.fail_exc('resample.mid', e, 'integer_times')) is False
+        for f in fc.POINT_FIELDS:
+            a = np.asarray(getattr(traj, f), dtype=float)
+            r = np.asarray(getattr(midi, f), dtype=float)
+            for k, (i, q) in enumerate(ipicks):
+                want = fc.lin_interp(float(q), t[i], t[i + 1], a[i], a[i + 1])
+                tol = 1e-9 * max(abs(a[i]), abs(a[i + 1]), 1e-300) + 1e-12
+                if not (abs(r[k] - want) <= tol):
+                    if ctx.fail('resample.mid', 'mismatch', 'trajectory.interpolate_time', 'integer_times',
+                                f'{f} at integer t = {q} between points {i} ({t[i]!r}: {a[i]!r}) and {i + 1} '
+                                f'({t[i + 1]!r}: {a[i + 1]!r}): got {r[k]!r}, linear interpolation {want!r}'):
+                        return False
     return True
 
 
